@@ -82,7 +82,7 @@ theorem TInv_stepJoinedC {s s' : State} {k : Key} (hl : LInv s) (hi : TInv s) (h
   all_goals tx_leaf hi s k
 
 theorem TInv_stepWriteStep {s s' : State} {k : Key} (hl : LInv s) (hi : TInv s) (h : stepWriteStep s k = some s') : TInv s' := by
-  unfold stepWriteStep at h
+  unfold stepWriteStep StreamSt.endWrite at h
   have ht := hi.st k
   obtain ⟨t1, t2, t3, t4, t5, t6, t7⟩ := ht
   have l1 := hl.d1 k
@@ -155,37 +155,51 @@ theorem TInv_stepAppWrite {s s' : State} {slot : Nat} {bytes : List Nat} (hl : L
     · exact t7
   · red; simp
 
-theorem TInv_stepAppFlush {s s' : State} {slot : Nat} (hl : LInv s) (hi : TInv s)
-    (h : stepAppFlush s slot = some s') : TInv s' := by
-  unfold stepAppFlush at h
+theorem TInv_stepFlushStep {s s' : State} {k : Key} (hl : LInv s) (hi : TInv s) (h : stepFlushStep s k = some s') : TInv s' := by
+  unfold stepFlushStep at h
+  have ht := hi.st k
+  obtain ⟨t1, t2, t3, t4, t5, t6, t7⟩ := ht
+  have l1 := hl.d1 k
+  have l4 := hl.pw k
   leaves h
-  · subst h
-    exact TInv_of_same (s := s) rfl rfl (fun h => h) (fun k => txSame_refl _) hi
-  · subst h
-    exact TInv_of_same (s := s) rfl rfl (fun h => h) (fun k => txSame_refl _) hi
-  · rename_i _ k r hs hp hwb hd
-    have hw := (hl.sl slot k r true hs).2 rfl
-    have ht := hi.st k
-    obtain ⟨t1, t2, t3, t4, t5, t6, t7⟩ := ht
-    have ho := t3 hw
-    have hpn : (s.st k).pendW = none := by cases hq : (s.st k).pendW <;> simp_all
-    subst h
-    tx_leaf hi s k
-  · rename_i _ k r hs hd hp hwb
-    have hw := (hl.sl slot k r true hs).2 rfl
-    have ht := hi.st k
-    obtain ⟨t1, t2, t3, t4, t5, t6, t7⟩ := ht
-    have ho := t3 hw
-    have hpn : (s.st k).pendW = none := by cases hq : (s.st k).pendW <;> simp_all
-    subst h
-    tx_leaf hi s k
+  all_goals subst h
+  all_goals first | (tx_leaf hi s k; done) | skip
+
+theorem TInv_stepCancelWrite {s s' : State} {k : Key} (hl : LInv s) (hi : TInv s) (h : stepCancelWrite s k = some s') : TInv s' := by
+  unfold stepCancelWrite StreamSt.endWrite at h
+  have ht := hi.st k
+  obtain ⟨t1, t2, t3, t4, t5, t6, t7⟩ := ht
+  have l1 := hl.d1 k
+  have l4 := hl.pw k
+  leaves h
+  rename_i p hp hc
+  subst h
+  have hw := l4 (by simp [hp])
+  have ho := t3 hw
+  refine TInv_upd (k := k) hi rfl rfl rfl ?_ ?_ ?_
+  · intro k' hk'; red; simp [hk']
+  · red; simp only [↓reduceIte]
+    constructor
+    · intro ha
+      have hlog := t1 ha
+      simp only [pendRest, hp] at hlog
+      simp only [pendRest, List.append_nil]
+      rw [hlog]
+      exact take_length_sub_append _ _
+    · intro h0; rw [ho] at h0; cases h0
+    · exact t3
+    · exact t4
+    · exact t5
+    · exact t6
+    · exact t7
+  · red; simp
 
 theorem TInv_stepAppDrop {s s' : State} {slot : Nat} {r w : Bool} (hi : TInv s)
     (h : stepAppDrop s slot r w = some s') : TInv s' := by
   unfold stepAppDrop at h
   split at h
   · rename_i k hr hw hs
-    by_cases hg : (r && hr && (s.st k).pendR.isSome || w && hw && (s.st k).pendW.isSome) = true
+    by_cases hg : (r && hr && (s.st k).pendR.isSome || w && hw && ((s.st k).pendW.isSome || (s.st k).pendF.isSome)) = true
     · rw [if_pos hg] at h; cases h
     · rw [if_neg hg] at h
       simp only [Option.some.injEq] at h
@@ -226,8 +240,15 @@ theorem TInv_step {s s' : State} {e : Event} (hl : LInv s) (hi : TInv s) (h : st
   case readStep k => exact TInv_stepReadStep hi h
   case appWrite a b => exact TInv_stepAppWrite hl hi h
   case writeStep k => exact TInv_stepWriteStep hl hi h
-  case appFlush a => exact TInv_stepAppFlush hl hi h
+  case appFlush a => exact TInv_stepAppFlush hi h
   case appDrop a b c => exact TInv_stepAppDrop hi h
+  case wtake => exact TInv_stepWTake hi h
+  case wdo => exact TInv_stepWDo hi h
+  case wblock => exact TInv_stepWBlock hi h
+  case txWindow l => cases h; exact TInv_of_same (s := s) rfl rfl id (fun k => txSame_refl _) hi
+  case flushStep k => exact TInv_stepFlushStep hl hi h
+  case cancelWrite k => exact TInv_stepCancelWrite hl hi h
+  case cancelFlush k => exact TInv_stepCancelFlush hi h
 
 theorem TInv_reachable {s : State} (h : Reachable s) : TInv s := by
   have : LInv s ∧ TInv s :=
